@@ -137,12 +137,24 @@ in_fifo(int slot)
                         return 1;
         return 0;
 }
+/* Every checked call below is preceded by a real API call that fails without any other effect
+ * (imb_set_session(mgr, NULL) -> IMB_ERR_NULL_JOB), so the manager's error code is non-zero on entry: a call that
+ * succeeds must leave it at zero on every path (also "nothing to do" paths such as a flush of an empty queue). */
+static void
+stale_errno(void)
+{
+        (void) imb_set_session(m, NULL);
+}
 static void
 post_invariants(void)
 {
+        stale_errno();
         uint32_t q = X_QUEUE_SIZE(m);
         if (q != (uint32_t) R.count)
                 viol("queue-size", "queue_size != submitted - handed back", q, R.count);
+        if (imb_get_errno(m) != 0)
+                viol("errno", "queue_size left a non-zero error code", imb_get_errno(m), 1);
+        stale_errno();
         IMB_JOB *n = X_GET_NEXT(m);
         if (imb_get_errno(m) != 0)
                 viol("errno", "get_next_job left a non-zero error code", imb_get_errno(m), 0);
@@ -162,6 +174,7 @@ op_submit(int kind, int nocheck)
         if (in_fifo(slot))
                 viol("next-slot-in-use", "slot offered for filling still awaits return", slot, R.count);
         fill(j, kind, slot, 0);
+        stale_errno();
         IMB_JOB *r = nocheck ? X_SUBMIT_NOCHECK(m) : X_SUBMIT(m);
         int e = imb_get_errno(m);
         R.slot[R.count] = (uint16_t) slot;
@@ -179,6 +192,7 @@ op_submit(int kind, int nocheck)
 static void
 op_flush(void)
 {
+        stale_errno();
         IMB_JOB *r = X_FLUSH(m);
         if (imb_get_errno(m) != 0)
                 viol("errno", "flush_job left a non-zero error code", imb_get_errno(m), 0);
@@ -191,6 +205,7 @@ static void
 op_get_completed(void)
 {
         int head_final = R.count && m->jobs[R.slot[0]].status >= IMB_STATUS_COMPLETED;
+        stale_errno();
         IMB_JOB *r = X_GET_COMPLETED(m);
         if (imb_get_errno(m) != 0)
                 viol("errno", "get_completed_job left a non-zero error code", imb_get_errno(m), 0);
@@ -215,6 +230,7 @@ op_burst(const bop_t *b)
 {
         IMB_JOB *jobs[RING + 8];
         uint32_t n = b->n;
+        stale_errno();
         uint32_t k = X_GET_NEXT_BURST(m, n, jobs);
         int e = imb_get_errno(m);
         if (n > MAXB) {
@@ -223,6 +239,8 @@ op_burst(const bop_t *b)
                 return;
         }
         uint32_t expk = (uint32_t) (RING - R.count) < n ? (uint32_t) (RING - R.count) : n;
+        if (k == expk && k == n && e != 0)
+                viol("errno", "get_next_burst handed out all requested slots but left a non-zero error code", e, k);
         if (k != expk) {
                 viol("get-next-burst-count", "get_next_burst returned wrong slot count", k, expk);
                 if (k > expk)
@@ -251,6 +269,7 @@ op_burst(const bop_t *b)
         int slots[MAXB + 2];
         for (uint32_t i = 0; i < k; i++)
                 slots[i] = (int) (jobs[i] - m->jobs);
+        stale_errno();
         uint32_t r = b->nocheck ? X_SUBMIT_BURST_NOCHECK(m, k, jobs) : X_SUBMIT_BURST(m, k, jobs);
         e = imb_get_errno(m);
         if (hasx >= 0) {
@@ -277,6 +296,7 @@ static void
 op_flush_burst(int mx)
 {
         IMB_JOB *jobs[RING + 8];
+        stale_errno();
         uint32_t r = X_FLUSH_BURST(m, mx, jobs);
         if (imb_get_errno(m) != 0)
                 viol("errno", "flush_burst left a non-zero error code", imb_get_errno(m), 0);
@@ -312,6 +332,7 @@ op_sync_burst(int n)
                 SJ[i].u.HMAC._hashed_auth_key_xor_opad = opad;
                 memset(stag[i], 0, 32);
         }
+        stale_errno();
         uint32_t r = IMB_SUBMIT_HASH_BURST(m, SJ, (uint32_t) n, IMB_AUTH_HMAC_SHA_512);
         if (r != (uint32_t) n || imb_get_errno(m))
                 viol("sync-burst-count", "synchronous hash burst among asynchronous jobs did not return exactly its own jobs", (long) r, n);
